@@ -422,3 +422,15 @@ Proof.
   cbn [parse_num_tok] in H. destruct (c =? 45); [reflexivity|].
   destruct (is_digit c); [reflexivity | discriminate].
 Qed.
+
+(* ---------------------------------------------------------------------------------------------- *)
+(** * The fast integer rounding of the model agrees with SpecFloat's binary_normalize on samples
+      (powers of ten of the POW10 table, u64 edges, ties, the overflow threshold) *)
+Example round_int_f64_samples :
+  forallb (fun m => sf_eqb (round_int_f64 m) (binary_normalize 53 1024 m 0 false))
+    ([0; 1; 2; 3; 10; 9007199254740991; 9007199254740992; 9007199254740993; 9007199254740994; 9007199254740995;
+      9223372036854775807; 9223372036854775808; 12345678901234567890; 18446744073709550591; 18446744073709550592;
+      18446744073709550593; 18446744073709551615; 2 ^ 1024 - 2 ^ 970; 2 ^ 1024 - 2 ^ 970 - 1; 2 ^ 1024]
+     ++ map (fun k => 10 ^ k) [1; 5; 15; 16; 17; 18; 19; 20; 21; 22; 23; 24; 25; 27; 30; 50; 100; 200; 300; 307; 308; 309])%Z
+  = true.
+Proof. vm_compute. reflexivity. Qed.
